@@ -4,8 +4,8 @@ package main
 // executors (one solver each), aggregation of path results.
 
 import (
-	"os"
 	"fmt"
+	"os"
 	"sort"
 	"strings"
 	"sync"
@@ -15,33 +15,33 @@ import (
 )
 
 type HarnessResult struct {
-	Harness     string         `json:"harness"`
-	Package     string         `json:"package"`
-	Paths       int            `json:"paths"`
-	Outcomes    map[string]int `json:"outcomes"`
-	Steps       int64          `json:"ssa_instructions"`
-	Asserts     int            `json:"assertion_queries"`
-	Trivial     int            `json:"assertions_constant_true"`
-	NonTrivial  int            `json:"paths_reaching_assertion"`
-	Violations  []Violation    `json:"violations,omitempty"`
-	Reaches     []string       `json:"reached"`
-	Incon       []string       `json:"inconclusive,omitempty"`
-	Truncated   []string       `json:"truncated,omitempty"`
-	Unsupported []string       `json:"unsupported,omitempty"`
-	Solver      SolverStats    `json:"solver"`
-	WallS       float64        `json:"wall_s"`
-	Samples     []PathSample   `json:"samples,omitempty"`
-	Funcs       map[string]int `json:"-"`
-	Stubs       map[string]int `json:"-"`
-	MaxDepth    int            `json:"max_decisions"`
-	EngineError string         `json:"engine_error,omitempty"`
-	Vars        int            `json:"symbolic_inputs_max"`
-	Switches    int            `json:"goroutine_switches"`
-	Group       int            `json:"-"`
-	SelfSamples []SelfSample   `json:"-"`
-	CrossChecked int           `json:"cross_checked_obligations"`
-	CrossSolver  string        `json:"cross_solver,omitempty"`
-	CrossSeconds float64       `json:"cross_solver_s"`
+	Harness      string         `json:"harness"`
+	Package      string         `json:"package"`
+	Paths        int            `json:"paths"`
+	Outcomes     map[string]int `json:"outcomes"`
+	Steps        int64          `json:"ssa_instructions"`
+	Asserts      int            `json:"assertion_queries"`
+	Trivial      int            `json:"assertions_constant_true"`
+	NonTrivial   int            `json:"paths_reaching_assertion"`
+	Violations   []Violation    `json:"violations,omitempty"`
+	Reaches      []string       `json:"reached"`
+	Incon        []string       `json:"inconclusive,omitempty"`
+	Truncated    []string       `json:"truncated,omitempty"`
+	Unsupported  []string       `json:"unsupported,omitempty"`
+	Solver       SolverStats    `json:"solver"`
+	WallS        float64        `json:"wall_s"`
+	Samples      []PathSample   `json:"samples,omitempty"`
+	Funcs        map[string]int `json:"-"`
+	Stubs        map[string]int `json:"-"`
+	MaxDepth     int            `json:"max_decisions"`
+	EngineError  string         `json:"engine_error,omitempty"`
+	Vars         int            `json:"symbolic_inputs_max"`
+	Switches     int            `json:"goroutine_switches"`
+	Group        int            `json:"-"`
+	SelfSamples  []SelfSample   `json:"-"`
+	CrossChecked int            `json:"cross_checked_obligations"`
+	CrossSolver  string         `json:"cross_solver,omitempty"`
+	CrossSeconds float64        `json:"cross_solver_s"`
 }
 
 type PathSample struct {
@@ -85,6 +85,8 @@ func (e *Exec) runPath(pkg *ssa.Package, fn *ssa.Function, prefix []Decision) (r
 	e.model = nil
 	e.allowPanic = false
 	e.allowDeadlock = false
+	e.spinLimit = 0
+	e.spinParked = 0
 	e.codecLog = nil
 	e.fsTrace = nil
 	e.fsSeq = 0
@@ -111,6 +113,9 @@ func (e *Exec) runPath(pkg *ssa.Package, fn *ssa.Function, prefix []Decision) (r
 		switch r := r.(type) {
 		case nil:
 			res.Outcome = "returned"
+			if e.spinParked > 0 && len(res.Violations) == 0 {
+				e.incon("a goroutine was parked after spinning (rt.SpinLimit) and no obligation failed on that path")
+			}
 		case pathEnd:
 			res.Outcome = r.kind
 			res.Reason = r.reason
